@@ -206,6 +206,12 @@ def apply_edit(root, st):
                 fh.write(b"<?xml version='1.0'?><hashlist")
             with open(os.path.join(d, "ascmhl_chain.xml.tmp"), "wb") as fh:
                 fh.write(b"<?xml version='1.0'?><ascmhldirectory")
+            # ... and what a file manager of another operating system leaves beside the manifests (the loader skips these
+            # names; nobody may remove or change them)
+            with open(os.path.join(d, "._0001_left_2020-01-01_000000Z.mhl"), "wb") as fh:
+                fh.write(b"\x00\x05\x16\x07 resource fork")
+            with open(os.path.join(d, "._ascmhl_chain.xml"), "wb") as fh:
+                fh.write(b"\x00\x05\x16\x07")
     elif op == "rmmanifest":
         h = os.path.join(root, st["hist"])
         gens = dict(impl.list_manifests(h))
